@@ -169,9 +169,13 @@ def body(ck):
         d = Categorical(logits=jnp.asarray(logits))
         mode = int(d.mode())
         ss = [int(d.sample(jr.key(i))) for i in range(3)]
+        # sample_and_log_prob must return an index of the support too, with ITS OWN log-probability
+        sl = [d.sample_and_log_prob(jr.key(i)) for i in range(3)]
+        ss += [int(x) for x, _ in sl]
+        lp_ok = all((0 <= int(x) < n) and abs(float(lp) - float(d.log_prob(jnp.asarray(int(x))))) < 1e-6 for x, lp in sl)
         ck.count("Categorical/large-n")
         ck.case_seen(("cat-large", n))
-        if not (0 <= mode < n and mode == peak) or any(not (0 <= x < n) for x in ss):
+        if not (0 <= mode < n and mode == peak) or any(not (0 <= x < n) for x in ss) or not lp_ok:
             bad_large.append({"n": n, "logits": f"zeros({n}) with logits[{peak}]=8", "impl_mode": mode, "impl_samples": ss})
     if bad_large:
         b = bad_large[0]
